@@ -267,6 +267,37 @@ rewrite -(IH (fun j => Rb j.+1) j) //.
 by apply/matrixP=> i c; rewrite !mxE mulnS -!addnA mx_get_block_dr.
 Qed.
 
+(* bdiag is zero outside the diagonal blocks *)
+Lemma mx_get_block_off n1 n2 (A : 'M[F]_n1) (B : 'M[F]_n2) a b :
+  (a < n1)%N != (b < n1)%N -> mx_get (block_mx A 0 0 B) a b = 0.
+Proof.
+move=> ne.
+case: (ltnP a (n1 + n2)) => an; last by rewrite mx_get_out_r.
+case: (ltnP b (n1 + n2)) => bn; last by rewrite mx_get_out_c.
+rewrite (mx_get_nat _ an bn).
+case: (ltnP a n1) ne => a1; case: (ltnP b n1) => b1 // _.
+  have b2 : (b - n1 < n2)%N by rewrite ltn_subLR.
+  have -> : Ordinal an = lshift n2 (Ordinal a1) by apply: val_inj.
+  have -> : Ordinal bn = rshift n1 (Ordinal b2) by apply: val_inj; rewrite /= subnKC.
+  by rewrite block_mxEur mxE.
+have a2 : (a - n1 < n2)%N by rewrite ltn_subLR.
+have -> : Ordinal an = rshift n1 (Ordinal a2) by apply: val_inj; rewrite /= subnKC.
+have -> : Ordinal bn = lshift n2 (Ordinal b1) by apply: val_inj.
+by rewrite block_mxEdl mxE.
+Qed.
+
+Lemma bdiag_offdiag k (Rb : nat -> 'M[F]_s) a b : (0 < s)%N ->
+  (a %/ s != b %/ s)%N -> mx_get (bdiag k Rb) a b = 0.
+Proof.
+move=> s0; elim: k Rb a b => [|k IH] Rb a b ne /=; first by rewrite mx_get_out_r.
+case: (ltnP a s) => a1; case: (ltnP b s) => b1.
+- by move: ne; rewrite !divn_small // eqxx.
+- by apply: mx_get_block_off; rewrite a1 ltnNge b1.
+- by apply: mx_get_block_off; rewrite b1 ltnNge a1.
+rewrite -(subnKC a1) -(subnKC b1) mx_get_block_dr; apply: IH.
+by move: ne; rewrite -{1}(subnKC a1) -{1}(subnKC b1) !divnDl ?dvdnn // divnn s0 !add1n eqSS.
+Qed.
+
 (* block sum: sum_j Y_j^T G_j Z_j = Y^T blockdiag(G) Z *)
 Lemma bdiag_sum k L L' (G : nat -> 'M[F]_s) (Y : 'M[F]_(k * s, L)) (Z : 'M[F]_(k * s, L')) :
   \sum_(j < k) (rblk j Y)^T *m G j *m rblk j Z = Y^T *m bdiag k G *m Z.
@@ -353,9 +384,9 @@ Proof. by rewrite (mx_get_nat v (ltn_ord i) (ltn0Sn 0)); congr (v _ _); apply: v
 
 (* ---- size check ---- *)
 Lemma sukf_size_mismatch n m s (w : utw O) (h : M O n 1 -> M O m 1) (y : M O m 1)
-      (nz : noise O s m) prev (pred corr_prev : mixture O n) :
+      (nz : noise O s m) (pred corr_prev : mixture O n) :
   Nat.modulo m s <> 0%N ->
-  sukf_correct w h y nz prev pred corr_prev = (pred, prev).
+  sukf_correct w h y nz pred corr_prev = (pred, None).
 Proof.
 move=> ne; rewrite /sukf_correct.
 by case E: (Nat.eqb _ _) => //; move/Nat.eqb_eq: E.
@@ -720,8 +751,8 @@ Lemma sukf_lik_reduced (o : sukf_out O n m) :
   sukf_likelihood_comp nzr o = sukf_likelihood_comp nzf o.
 Proof. by rewrite /sukf_likelihood_comp lik_Rcat_reduced. Qed.
 
-Lemma sukf_correct_reduced prev pred corr_prev :
-  sukf_correct w h y nzr prev pred corr_prev = sukf_correct w h y nzf prev pred corr_prev.
+Lemma sukf_correct_reduced pred corr_prev :
+  sukf_correct w h y nzr pred corr_prev = sukf_correct w h y nzf pred corr_prev.
 Proof.
 rewrite /sukf_correct; case: Nat.eqb => //.
 have -> // : List.map (fun c => sukf_correct_comp w h y nzr c.1 c.2) (mix_comps pred) =
@@ -782,11 +813,11 @@ Proof. exact: (@sukf_comp_Cinv_unit n k s w h y nz Rb x P s_gt0 Hnz spdRb). Qed.
 Lemma step_Pyy_unit x P : uo_Pyy (ukf_correct_comp w h y (bdiag k Rb : M O m m) x P) \in unitmx.
 Proof. exact: (@ukf_comp_Pyy_unit n k s w h y Rb x P c_gt0 ut_wciE wc0_ge0 spdRb). Qed.
 
-Lemma sukf_step_is_ukf (prev : members O n m) (pred corr_prev : mixture O n) :
+Lemma sukf_step_is_ukf (pred corr_prev : mixture O n) :
   (forall c, List.In c (mix_comps pred) -> psd (c.2 : 'M[F]_n)) ->
-  (sukf_correct w h y nz prev pred corr_prev).1 =
+  (sukf_correct w h y nz pred corr_prev).1 =
     (ukf_correct w h y (bdiag k Rb : M O m m) pred corr_prev).1 /\
-  sukf_likelihood nz (sukf_correct w h y nz prev pred corr_prev).2 =
+  sukf_likelihood nz (sukf_correct w h y nz pred corr_prev).2 =
     Some (List.map (@ukf_likelihood_comp O n m) (ukf_correct w h y (bdiag k Rb : M O m m) pred corr_prev).2).
 Proof.
 move=> Hpsd; have Hsq c (Hc : List.In c (mix_comps pred)) := sq_contract (Hpsd c Hc).
